@@ -78,6 +78,23 @@ def reference(case):
     return evs, max(totals + [0])
 
 
+_MN = [0]
+
+
+def merge_noise():
+    """a merge that is refused half way (a track list with something that is no track in it, a message that fails the checks), caught by its
+    caller: the next merge must not notice"""
+    import mido
+    _MN[0] += 1
+    good = mido.MidiTrack([mido.Message('note_on', note=11, time=7), mido.MetaMessage('marker', text='left over', time=1000)])
+    bad = [None, mido.MidiTrack([mido.Message('note_on', note=300, skip_checks=True)]), mido.MidiTrack([mido.Message('note_on', time=1), 'x']),
+           mido.MidiTrack([mido.Message('note_on', note=1, time='soon', skip_checks=True)])][_MN[0] % 4]
+    try:
+        mido.merge_tracks([good, bad])
+    except Exception:  # noqa: BLE001
+        pass
+
+
 def impl_merge(case):
     import mido
     fail = None
@@ -86,6 +103,7 @@ def impl_merge(case):
         if any(i >= 16 for i in range(case[0])) and False:
             pass
         before = snapshot(tracks)
+        merge_noise()
         merged = mido.merge_tracks(tracks)
         after = snapshot(tracks)
         out = [len(merged)]
@@ -129,6 +147,26 @@ def impl_merge(case):
                             % ([(m.time, repr(m)) for m in m3][-3:], want_repr[-3:]))
                 elif [(m.time, repr(m)) for m in m2] != want_repr:
                     fail = ('result-shared', 'editing one merge result changed another result obtained earlier: %r' % ([(m.time, repr(m)) for m in m2][-3:],))
+            if fail is None:
+                # one MidiFile asked again after its tracks were edited in place (same number of tracks and of messages), and after the
+                # caller edited the answer it got first: the answer is the merge of the tracks as they are now
+                tr2 = build(case)
+                mf2 = mido.MidiFile(type=1, tracks=tr2)
+                first = mf2.merged_track
+                del first[:1]
+                try:
+                    for tr in tr2:
+                        if tr:
+                            tr[0].time += 5
+                            break
+                    if len(tr2) >= 2 and len(tr2[0]) == len(tr2[1]):
+                        tr2[0], tr2[1] = tr2[1], tr2[0]
+                except Exception:  # noqa: BLE001  (frozen messages)
+                    pass
+                now2 = [(m.time, repr(m)) for m in mf2.merged_track]
+                ref2 = [(m.time, repr(m)) for m in mido.merge_tracks(tr2)]
+                if now2 != ref2:
+                    fail = ('merged-track-stale', 'merged_track of a file whose tracks were edited in place after an earlier look gives %r; its tracks now merge to %r' % (now2[:4], ref2[:4]))
             if fail is None and len(tracks) == 1:
                 mf0 = mido.MidiFile(type=0, tracks=tracks)
                 if [(m.time, repr(m)) for m in mf0.merged_track] != want_repr:
@@ -188,7 +226,7 @@ def shared_objects(out, rng):
 
 def job(j):
     tag, comp, cases = j
-    return tag, core.eval_cases(comp, cases, impl_merge)
+    return tag, core.eval_cases(comp, cases, impl_merge, repeat=40, fresh=True)
 
 
 def random_case(rng):
